@@ -23,10 +23,50 @@ use std::sync::Mutex;
 // actions
 // ---------------------------------------------------------------------------------------------
 
+/// up to three slot numbers, stored inline (histories are kept for every state of the search)
+#[derive(Clone, Copy, PartialEq, Eq, Hash)]
+pub struct Args {
+    a: [u8; 3],
+    n: u8,
+}
+
+impl Args {
+    pub fn from_slice(v: &[u8]) -> Args {
+        assert!(v.len() <= 3);
+        let mut a = [0u8; 3];
+        a[..v.len()].copy_from_slice(v);
+        Args { a, n: v.len() as u8 }
+    }
+    pub fn as_slice(&self) -> &[u8] {
+        &self.a[..self.n as usize]
+    }
+    pub fn iter(&self) -> std::slice::Iter<'_, u8> {
+        self.as_slice().iter()
+    }
+    pub fn len(&self) -> usize {
+        self.n as usize
+    }
+    pub fn contains(&self, x: &u8) -> bool {
+        self.as_slice().contains(x)
+    }
+}
+
+impl std::fmt::Debug for Args {
+    fn fmt(&self, f: &mut std::fmt::Formatter) -> std::fmt::Result {
+        write!(f, "{:?}", self.as_slice())
+    }
+}
+
+impl From<Vec<u8>> for Args {
+    fn from(v: Vec<u8>) -> Args {
+        Args::from_slice(&v)
+    }
+}
+
 #[derive(Clone, Debug, PartialEq, Eq, Hash)]
 pub enum Act {
     /// dst = op(args); dst may be one of the argument slots (re-binding)
-    Build { op: u8, args: Vec<u8>, dst: u8 },
+    Build { op: u8, args: Args, dst: u8 },
     Clone { src: u8, dst: u8 },
     Drop { slot: u8 },
     /// 0 = tracked(), 1 = untracked(), 2 = start_tracking(), 3 = stop_tracking()
@@ -41,7 +81,7 @@ pub enum Act {
     /// dst = slot.gradient().clone().unwrap().tracked()
     Adopt { slot: u8, dst: u8 },
     /// GradientDescent::new(lr).update(handles in `slots`)
-    Update { slots: Vec<u8>, lr: u8 },
+    Update { slots: Args, lr: u8 },
 }
 
 pub const LRS: [f64; 2] = [0.5, 2.0];
@@ -456,7 +496,7 @@ impl RWorld {
             }
             Act::Update { slots, lr } => {
                 let lr = LRS[*lr as usize];
-                for s in slots {
+                for s in slots.iter() {
                     let h = self.slots[*s as usize].clone().unwrap();
                     let node = &self.nodes[h.node];
                     match &node.grad {
@@ -785,8 +825,21 @@ pub struct Obs {
 // ---------------------------------------------------------------------------------------------
 
 pub struct Replayed {
-    pub canon: Vec<u8>,
+    /// 128-bit hash of the canonical (reference state, probe) serialisation; (0,0) when unmerged
+    pub key: (u64, u64),
     pub digest: u64,
+}
+
+fn hash128(bytes: &[u8]) -> (u64, u64) {
+    let mut a = 0xcbf29ce484222325u64;
+    let mut b = 0x9e3779b97f4a7c15u64;
+    for x in bytes {
+        a ^= *x as u64;
+        a = a.wrapping_mul(0x100000001b3);
+        b = (b ^ (*x as u64)).wrapping_mul(0xff51afd7ed558ccd);
+        b ^= b >> 29;
+    }
+    (a, b | 1)
 }
 
 pub enum StepResult {
@@ -974,7 +1027,8 @@ pub fn replay(cfg: &MCfg, hist: &[Act]) -> StepResult {
     for (_, e, ok) in &own {
         fnv(&mut h, &[*e as u8, *ok as u8]);
     }
-    StepResult::Ok(Replayed { canon, digest: h })
+    let key = if cfg.merged { hash128(&canon) } else { (0, 0) };
+    StepResult::Ok(Replayed { key, digest: h })
 }
 
 /// C10's differential oracle: the increment this pass adds equals what the same pass deposits when
@@ -1063,26 +1117,27 @@ fn fresh_diff(cfg: &MCfg, hist: &[Act], before: &[Option<Obs>], after: &[Option<
 #[derive(Clone, Debug)]
 pub struct MState {
     pub hist: Vec<Act>,
-    pub canon: Vec<u8>,
+    /// hash of the canonical state when states are merged, (0,0) when the history is the state
+    pub key: (u64, u64),
     pub used: [u8; 9],
 }
 
 impl PartialEq for MState {
     fn eq(&self, o: &MState) -> bool {
-        if self.canon.is_empty() && o.canon.is_empty() {
+        if self.key == (0, 0) && o.key == (0, 0) {
             self.hist == o.hist
         } else {
-            self.canon == o.canon && self.used == o.used
+            self.key == o.key && self.used == o.used
         }
     }
 }
 impl Eq for MState {}
 impl Hash for MState {
     fn hash<H: Hasher>(&self, h: &mut H) {
-        if self.canon.is_empty() {
+        if self.key == (0, 0) {
             self.hist.hash(h);
         } else {
-            self.canon.hash(h);
+            self.key.hash(h);
             self.used.hash(h);
         }
     }
@@ -1093,9 +1148,9 @@ pub struct Shared {
     pub violation_count: std::sync::atomic::AtomicU64,
     pub out_of_domain: std::sync::atomic::AtomicU64,
     pub executed: std::sync::atomic::AtomicU64,
-    pub outcomes: Mutex<std::collections::HashSet<u64>>,
+    pub outcomes: Vec<Mutex<std::collections::HashSet<u64>>>,
     pub samples: Mutex<Vec<String>>,
-    pub depth_hist: Mutex<Vec<u64>>,
+    pub depth_hist: Vec<std::sync::atomic::AtomicU64>,
     pub only: Option<String>,
 }
 
@@ -1174,7 +1229,7 @@ impl Machine {
                         }
                     }
                     for d in dsts {
-                        out.push(Act::Build { op: oi as u8, args: args.clone(), dst: d });
+                        out.push(Act::Build { op: oi as u8, args: Args::from_slice(&args), dst: d });
                     }
                 }
             }
@@ -1256,7 +1311,7 @@ impl Machine {
                     continue;
                 }
                 for lr in 0..LRS.len() as u8 {
-                    out.push(Act::Update { slots: slots.clone(), lr });
+                    out.push(Act::Update { slots: Args::from_slice(&slots), lr });
                 }
             }
         }
@@ -1289,18 +1344,13 @@ impl Machine {
             }
             StepResult::Ok(r) => {
                 {
-                    let mut o = self.shared.outcomes.lock().unwrap();
-                    if o.len() < (1 << 20) {
+                    let shard = &self.shared.outcomes[(r.digest % 64) as usize];
+                    let mut o = shard.lock().unwrap();
+                    if o.len() < (1 << 15) {
                         o.insert(r.digest);
                     }
                 }
-                {
-                    let mut d = self.shared.depth_hist.lock().unwrap();
-                    if d.len() <= hist.len() {
-                        d.resize(hist.len() + 1, 0);
-                    }
-                    d[hist.len()] += 1;
-                }
+                self.shared.depth_hist[hist.len().min(31)].fetch_add(1, std::sync::atomic::Ordering::Relaxed);
                 {
                     let n = self.shared.executed.load(std::sync::atomic::Ordering::Relaxed);
                     if n.is_power_of_two() || n % 1_000_003 == 0 {
@@ -1312,7 +1362,7 @@ impl Machine {
                 }
                 let mut used = st.used;
                 used[used_index(&a)] += 1;
-                Some(MState { hist, canon: r.canon, used })
+                Some(MState { hist, key: r.key, used })
             }
         }
     }
@@ -1324,7 +1374,7 @@ impl stateright::Model for Machine {
 
     fn init_states(&self) -> Vec<MState> {
         match replay(&self.cfg, &[]) {
-            StepResult::Ok(r) => vec![MState { hist: vec![], canon: r.canon, used: [0; 9] }],
+            StepResult::Ok(r) => vec![MState { hist: vec![], key: r.key, used: [0; 9] }],
             _ => machinery_error("the initial state of a machine does not replay"),
         }
     }
@@ -1358,9 +1408,9 @@ pub fn run_machine(opts: &Opts, cfg: MCfg, total: &mut Local) -> MachineRun {
         violation_count: std::sync::atomic::AtomicU64::new(0),
         out_of_domain: std::sync::atomic::AtomicU64::new(0),
         executed: std::sync::atomic::AtomicU64::new(0),
-        outcomes: Mutex::new(std::collections::HashSet::new()),
+        outcomes: (0..64).map(|_| Mutex::new(std::collections::HashSet::new())).collect(),
         samples: Mutex::new(Vec::new()),
-        depth_hist: Mutex::new(Vec::new()),
+        depth_hist: (0..32).map(|_| std::sync::atomic::AtomicU64::new(0)).collect(),
         only: opts.only.clone(),
     });
     let m = Machine { cfg: cfg.clone(), shared: shared.clone() };
@@ -1381,8 +1431,10 @@ pub fn run_machine(opts: &Opts, cfg: MCfg, total: &mut Local) -> MachineRun {
             }
         }
     }
-    for d in shared.outcomes.lock().unwrap().iter() {
-        total.outcome(*d);
+    for shard in shared.outcomes.iter() {
+        for d in shard.lock().unwrap().iter() {
+            total.outcome(*d);
+        }
     }
     for s in shared.samples.lock().unwrap().iter() {
         if total.samples.len() < 12 {
@@ -1391,6 +1443,9 @@ pub fn run_machine(opts: &Opts, cfg: MCfg, total: &mut Local) -> MachineRun {
     }
     let ood = shared.out_of_domain.load(std::sync::atomic::Ordering::Relaxed);
     total.count_n(&format!("{}:histories_out_of_domain", cfg.name), ood);
-    let depth_hist = shared.depth_hist.lock().unwrap().clone();
+    let mut depth_hist: Vec<u64> = shared.depth_hist.iter().map(|a| a.load(std::sync::atomic::Ordering::Relaxed)).collect();
+    while depth_hist.len() > 1 && *depth_hist.last().unwrap() == 0 {
+        depth_hist.pop();
+    }
     MachineRun { states, transitions: generated, executed, out_of_domain: ood, max_depth, depth_hist }
 }
